@@ -276,6 +276,7 @@ def main():
                "trusted_base": P.get("trusted_base", []) + ["pyvc symbolic interpreter + library models (assumed contracts of numpy/jax/orbax/omegaconf, see DESIGN.md section 9)", "z3 5.1.0 (cvc5 1.0.3 on unknowns)"] + (["Lean 4.33 kernel + Mathlib"] if P.get("lean") else []),
                "functions_under_contract": funcs,
                "library_models_used": sorted({m for rep in reps for m in rep.get("lib_used", [])}),
+               "repo_functions_symbolically_executed": sorted({m for rep in reps for m in rep.get("executed", [])}),
                "obligations_by_backend": dict(by_backend, **({"lean": n_lean} if P.get("lean") else {})),
                "solver_time_s": round(sum(r["secs"] for r in obligations + canaries), 3),
                "paths_explored": sum(f.get("paths") or 0 for f in funcs), "paths_pruned": sum(f.get("pruned") or 0 for f in funcs),
